@@ -5,4 +5,9 @@ CONSTANTS
   NatRank <- MCNatRank
 CONSTRAINT Emit
 INVARIANT ModelCoherent
+INVARIANT ModelEqIsEquivalence
+INVARIANT ModelTypeOK
+PROPERTY ModelFrame
+PROPERTY ModelReadsChangeNothing
+PROPERTY ModelSlotsOnlyGrow
 CHECK_DEADLOCK FALSE
